@@ -869,6 +869,89 @@ func genFacts(repo, out string) {
 	write(filepath.Join(out, "Facts.lean"), b.String())
 }
 
+// genBackendFacts: what Model/Bolt and Model/FsBackend take from the backends' source as literals:
+// the name of s3bolt's bookkeeping bucket and the prefix of its records, and the shape of
+// s3afero's validKey (the exact conditions Model/FsTree.keyPath mirrors).
+func genBackendFacts(repo, out string) {
+	var b strings.Builder
+	b.WriteString("/- GENERATED by harness/cmd/extract from /repo — do not edit. -/\nnamespace GFS.Generated\n\n")
+	// s3bolt: metaBucketName: []byte("...") in New
+	bf := parseFile(filepath.Join(repo, "backend", "s3bolt", "backend.go"))
+	metaName := ""
+	ast.Inspect(bf, func(n ast.Node) bool {
+		if kv, ok := n.(*ast.KeyValueExpr); ok {
+			if id, ok := kv.Key.(*ast.Ident); ok && id.Name == "metaBucketName" {
+				if ce, ok := kv.Value.(*ast.CallExpr); ok && len(ce.Args) == 1 {
+					if bl, ok := ce.Args[0].(*ast.BasicLit); ok && bl.Kind == token.STRING {
+						metaName, _ = strconv.Unquote(bl.Value)
+					}
+				}
+			}
+		}
+		return true
+	})
+	if metaName == "" {
+		die("s3bolt/backend.go: metaBucketName: []byte(<literal>) not found")
+	}
+	sf := parseFile(filepath.Join(repo, "backend", "s3bolt", "schema.go"))
+	kf := findFunc(sf, "", "bucketMetaKey")
+	if kf == nil {
+		die("s3bolt/schema.go: func bucketMetaKey not found")
+	}
+	prefix := ""
+	ast.Inspect(kf.Body, func(n ast.Node) bool {
+		if be, ok := n.(*ast.BinaryExpr); ok && be.Op == token.ADD {
+			if bl, ok := be.X.(*ast.BasicLit); ok && bl.Kind == token.STRING {
+				if id, ok := be.Y.(*ast.Ident); ok && id.Name == "name" {
+					prefix, _ = strconv.Unquote(bl.Value)
+				}
+			}
+		}
+		return true
+	})
+	if prefix == "" {
+		die("s3bolt/schema.go: bucketMetaKey is not []byte(<literal> + name)")
+	}
+	bytesOf := func(s string) string {
+		var parts []string
+		for _, c := range []byte(s) {
+			parts = append(parts, fmt.Sprint(c))
+		}
+		return "[" + strings.Join(parts, ", ") + "]"
+	}
+	fmt.Fprintf(&b, "/-- s3bolt `metaBucketName` (%q) -/\ndef boltMetaName : List UInt8 := %s\n", metaName, bytesOf(metaName))
+	fmt.Fprintf(&b, "/-- the literal prefix of s3bolt `bucketMetaKey` (%q) -/\ndef boltMetaKeyPrefix : List UInt8 := %s\n", prefix, bytesOf(prefix))
+	// does every object-level method go through s3Bucket (the bookkeeping bucket is no S3 bucket)?
+	src, err := os.ReadFile(filepath.Join(repo, "backend", "s3bolt", "backend.go"))
+	if err != nil {
+		die("%v", err)
+	}
+	direct := 0
+	for _, fn := range []string{"ListBucket", "GetObject", "PutObject", "DeleteObject", "DeleteMulti"} {
+		fd := findFunc(bf, "Backend", fn)
+		if fd == nil {
+			die("s3bolt/backend.go: method %s not found", fn)
+		}
+		body := string(src[fset.Position(fd.Body.Pos()).Offset:fset.Position(fd.Body.End()).Offset])
+		if strings.Contains(body, "tx.Bucket(") {
+			direct++
+		}
+	}
+	fmt.Fprintf(&b, "/-- object-level methods of s3bolt that open a bolt bucket without `s3Bucket` -/\ndef boltDirectBucketUses : Nat := %d\n", direct)
+	// s3afero validKey: the literal conditions
+	uf := parseFile(filepath.Join(repo, "backend", "s3afero", "util.go"))
+	vk := findFunc(uf, "", "validKey")
+	if vk == nil {
+		die("s3afero/util.go: func validKey not found")
+	}
+	vsrc := nodeSrc(repo, filepath.Join("backend", "s3afero", "util.go"), vk.Body)
+	norm := strings.Join(strings.Fields(vsrc), " ")
+	want := `{ if key == "" || key == "." || key == ".." || strings.HasPrefix(key, "../") || strings.HasPrefix(key, "/") { return false } return path.Clean(key) == key }`
+	fmt.Fprintf(&b, "/-- s3afero `validKey` has the body Model/FsTree.keyPath mirrors -/\ndef aferoValidKeyAsModelled : Bool := %v\n", norm == want)
+	b.WriteString("\nend GFS.Generated\n")
+	write(filepath.Join(out, "BackendFacts.lean"), b.String())
+}
+
 func quoteAll(ss []string) string {
 	q := make([]string, len(ss))
 	for i, s := range ss {
@@ -909,7 +992,7 @@ func main() {
 	}
 	repo, out := os.Args[1], os.Args[2]
 	os.MkdirAll(out, 0755)
-	for _, f := range []string{"Facts.lean", "RangeGo.lean", "ClampGo.lean"} {
+	for _, f := range []string{"Facts.lean", "RangeGo.lean", "ClampGo.lean", "BackendFacts.lean"} {
 		os.Remove(filepath.Join(out, f))
 	}
 	// each unit is generated on its own: a source change the translator does not understand costs
@@ -918,7 +1001,7 @@ func main() {
 	for _, u := range []struct {
 		name string
 		gen  func(string, string)
-	}{{"Facts", genFacts}, {"RangeGo", genRange}, {"ClampGo", genClamp}} {
+	}{{"Facts", genFacts}, {"RangeGo", genRange}, {"ClampGo", genClamp}, {"BackendFacts", genBackendFacts}} {
 		func() {
 			defer func() {
 				if p := recover(); p != nil {
